@@ -412,3 +412,161 @@ func StmtLists(body ast.Node, f func(list []ast.Stmt)) {
 		return true
 	})
 }
+
+// ---------------------------------------------------------------------------------------
+// Conditions as disjunctions. `!ok || t == nil || k != Func` and `!(ok && t != nil && k == Func)`
+// are the same test; Disjuncts reads either as the list of atoms one of which must hold,
+// with negations pushed inwards (De Morgan) and comparisons negated in place.
+
+// Disjuncts returns expressions d1 … dn with  e ≡ d1 || … || dn  (neg: ¬e instead of e).
+// Atoms that had to be negated are synthesised nodes (`!x`, or the comparison with the
+// complementary operator) whose operands are the original nodes.
+func Disjuncts(e ast.Expr, neg bool) []ast.Expr {
+	e = Unparen(e)
+	if u, ok := e.(*ast.UnaryExpr); ok && u.Op == token.NOT {
+		return Disjuncts(u.X, !neg)
+	}
+	if b, ok := e.(*ast.BinaryExpr); ok {
+		if (b.Op == token.LOR && !neg) || (b.Op == token.LAND && neg) {
+			return append(Disjuncts(b.X, neg), Disjuncts(b.Y, neg)...)
+		}
+		if neg {
+			if op, ok := negatedCmp[b.Op]; ok {
+				return []ast.Expr{&ast.BinaryExpr{X: b.X, OpPos: b.OpPos, Op: op, Y: b.Y}}
+			}
+		}
+	}
+	if neg {
+		return []ast.Expr{&ast.UnaryExpr{OpPos: e.Pos(), Op: token.NOT, X: e}}
+	}
+	return []ast.Expr{e}
+}
+
+// Conjuncts: e ≡ c1 && … && cn (neg: ¬e).
+func Conjuncts(e ast.Expr, neg bool) []ast.Expr {
+	e = Unparen(e)
+	if u, ok := e.(*ast.UnaryExpr); ok && u.Op == token.NOT {
+		return Conjuncts(u.X, !neg)
+	}
+	if b, ok := e.(*ast.BinaryExpr); ok {
+		if (b.Op == token.LAND && !neg) || (b.Op == token.LOR && neg) {
+			return append(Conjuncts(b.X, neg), Conjuncts(b.Y, neg)...)
+		}
+		if neg {
+			if op, ok := negatedCmp[b.Op]; ok {
+				return []ast.Expr{&ast.BinaryExpr{X: b.X, OpPos: b.OpPos, Op: op, Y: b.Y}}
+			}
+		}
+	}
+	if neg {
+		return []ast.Expr{&ast.UnaryExpr{OpPos: e.Pos(), Op: token.NOT, X: e}}
+	}
+	return []ast.Expr{e}
+}
+
+var negatedCmp = map[token.Token]token.Token{
+	token.EQL: token.NEQ, token.NEQ: token.EQL,
+	token.LSS: token.GEQ, token.GEQ: token.LSS,
+	token.GTR: token.LEQ, token.LEQ: token.GTR,
+}
+
+// MirroredCmp: the comparison with its operands exchanged (a < b ≡ b > a).
+var MirroredCmp = map[token.Token]token.Token{
+	token.EQL: token.EQL, token.NEQ: token.NEQ,
+	token.LSS: token.GTR, token.GTR: token.LSS,
+	token.LEQ: token.GEQ, token.GEQ: token.LEQ,
+}
+
+// CmpOn orients a comparison so that the operand accepted by subject is on the left:
+// returns (subject, other, op) with  e ≡ subject op other.
+func CmpOn(e ast.Expr, subject func(ast.Expr) bool) (ast.Expr, ast.Expr, token.Token, bool) {
+	b, ok := Unparen(e).(*ast.BinaryExpr)
+	if !ok {
+		return nil, nil, token.ILLEGAL, false
+	}
+	if _, isCmp := MirroredCmp[b.Op]; !isCmp {
+		return nil, nil, token.ILLEGAL, false
+	}
+	if subject(Unparen(b.X)) {
+		return Unparen(b.X), Unparen(b.Y), b.Op, true
+	}
+	if subject(Unparen(b.Y)) {
+		return Unparen(b.Y), Unparen(b.X), MirroredCmp[b.Op], true
+	}
+	return nil, nil, token.ILLEGAL, false
+}
+
+// ---------------------------------------------------------------------------------------
+// FactsAt: the atomic conditions that hold when control reaches target inside root, by
+// structure alone: the conditions of enclosing ifs (negated in their else branch), and the
+// negations of earlier guard clauses `if C { continue | return | break | panic }` in the
+// enclosing statement lists. Conjunctions are split, negations pushed inwards (Conjuncts).
+// Assignments between a test and the target are not tracked: callers use it for variables
+// bound once per iteration or call.
+func FactsAt(root ast.Node, target ast.Node) []ast.Expr {
+	var facts []ast.Expr
+	var path []ast.Node
+	var find func(n ast.Node) bool
+	find = func(n ast.Node) bool {
+		if n == nil {
+			return false
+		}
+		if n == target {
+			path = append(path, n)
+			return true
+		}
+		if n.Pos() > target.Pos() || n.End() < target.End() {
+			return false
+		}
+		found := false
+		first := true
+		ast.Inspect(n, func(c ast.Node) bool {
+			if first {
+				first = false
+				return true
+			}
+			if c == nil || found {
+				return false
+			}
+			if find(c) {
+				found = true
+			}
+			return false
+		})
+		if found {
+			path = append(path, n)
+		}
+		return found
+	}
+	if !find(root) {
+		return nil
+	}
+	// path is target … root; walk from the root inwards
+	for i := len(path) - 1; i >= 1; i-- {
+		outer, inner := path[i], path[i-1]
+		switch x := outer.(type) {
+		case *ast.IfStmt:
+			if inner == ast.Node(x.Body) {
+				facts = append(facts, Conjuncts(x.Cond, false)...)
+			} else if x.Else != nil && inner == ast.Node(x.Else) {
+				facts = append(facts, Conjuncts(x.Cond, true)...)
+			}
+		}
+		var list []ast.Stmt
+		switch x := outer.(type) {
+		case *ast.BlockStmt:
+			list = x.List
+		case *ast.CaseClause:
+			list = x.Body
+		}
+		for _, st := range list {
+			if ast.Node(st) == inner {
+				break
+			}
+			if is, ok := st.(*ast.IfStmt); ok && is.Else == nil && stmtsLeave(is.Body.List) {
+				facts = append(facts, Conjuncts(is.Cond, true)...)
+			}
+		}
+	}
+	return facts
+}
